@@ -17,6 +17,7 @@ META = {
              "default and perturbed parameters. Non-trivial = k != 0 or mirror, the sea is not isotropic and the wind "
              "is not aligned with a grid direction; distinct = sha1 of the case."),
     "assumptions": [
+        "in half of the cases the source-term / balance objects have been used before on a spectrum with another grid of the same shape (object reuse); every clause must hold regardless",
         "explicit roughness: spectral fields compared bin-for-bin after the roll/flip at 1e-10 relative to the field maximum; bulk rates 1e-10 relative",
         "implicit path: roughness 1e-5 relative (solver tolerance 1e-6 in log z0), stress magnitude 1e-4 relative, stress direction 1e-2 degree, dissipation-weighted direction and estimated wind direction 1e-6 degree (+1e-9/R), U10 within 0.03 m/s (solver step tolerance 0.01 m/s)",
         "a quantity that is NaN before the transformation must be NaN after it and vice versa; exception (known finding F25): points of the unphysical 'random' kind, whose roughness solve is round-off dependent - counted as random_spectrum_undefined_in_one_orientation",
@@ -45,6 +46,7 @@ def case(draw):
         "viscous": draw(st.sampled_from([0.0, 0.0, 0.1])),
         "invert": draw(st.integers(0, 2)) == 0,
         "direction_iteration": draw(st.booleans()),
+        "reuse_terms": draw(st.booleans()),
     })
     if c["direction_iteration"] and draw(st.booleans()):
         c["invert"] = True
@@ -81,6 +83,8 @@ def run(c):
     from ocean_science_utilities.wavephysics.balance.balance import SourceTermBalance
     from ocean_science_utilities.wavephysics.windestimate import estimate_u10_from_source_terms
     gen, dis, fac = make_terms(c)
+    if c.get("reuse_terms"):
+        W.prime_terms(c, gen, dis)
     f, d = W.axes(c)
     nd = c["nd"]
     delta = 360.0 / nd
@@ -140,6 +144,8 @@ def run(c):
     require((wdiff(q2, sign * q1 + k * delta)[active] <= 1e-6).all(), "dissipation_weighted_direction_rotates",
             f"{what}: {q1} -> {q2}")
     classes = ["dissipation_" + c["dissipation"], f"nd{nd}", "mirror" if mirror else "rotate"]
+    if c.get("reuse_terms"):
+        classes.append("term_objects_used_before_on_another_grid_of_the_same_shape")
     if c["invert"]:
         bal = SourceTermBalance(gen, dis)
         e1 = estimate_u10_from_source_terms(s1, bal)
